@@ -390,7 +390,7 @@ namespace avel {
 
         #if (defined(AVEL_AVX512VL) && defined(AVEL_AVX512BW)) || defined(AVEL_AVX10_1)
         auto mask = b << N;
-        return mask16x8u{__mmask16((decay(m) & ~mask) | mask)};
+        return mask16x8u{__mmask16((decay(m) & ~(1u << N)) | mask)};
 
         #elif defined(AVEL_SSE4_1)
         return mask16x8u{_mm_insert_epi8(decay(m), b ? - 1 : 0, N)};
